@@ -32,7 +32,7 @@ def main():
         tier = job["tier"]
         idxs = range(job["start"], job["stop"], job["step"])
         wall = job.get("wall", 1e9)
-        per_run_cap = job.get("run_cap", 120)
+        per_run_cap = job.get("run_cap", 300)
         want_digests = job.get("digests", False)
         out = {
             "n": 0, "violations": [], "stats": {}, "probes": {}, "discards": {}, "samples": [], "harness_errors": [],
